@@ -3,6 +3,8 @@ package props
 import (
 	"fmt"
 	"go/ast"
+	"go/types"
+	"sort"
 	"strings"
 
 	"mgcheck/core"
@@ -24,7 +26,7 @@ func checkC17(c *core.Ctx) {
 	c.Rule(rC17Join, "oneStepEvalClause, evaluated with stub premises of every kind that multiply solutions: it returns an error as soon as a join holds more than the limit, whatever the premise kind and including the last expansion", 1)
 	c.Rule(rC17Total, "EvalStratifiedProgramWithStats, evaluated with stubbed options and stores: the total limit is initial facts (plain and temporal) plus the created-fact limit whenever that is positive, also for an empty store, and zero otherwise", 1)
 	c.Rule(rC17Count, "engine.factCount is the number of plain facts plus the number of temporal facts of the stores that receive derived facts", 1)
-	c.Rule(rC17Err, "no call on the chain eval -> evalStrata -> EvalStratifiedProgramWithStats -> EvalProgramWithStats -> EvalProgram, nor of oneStepEvalClause / mergeDelta / EvalTransformWithInputFacts inside eval, drops its error result", 8)
+	c.Rule(rC17Err, "in every function of package engine that EvalProgram reaches through static calls (found by reachability on each run, so helpers may be extracted, inlined or renamed), no call to a function or interface method of the module that returns an error drops that error: the result is returned, wrapped, or bound to a variable that is tested or returned; the one accepted idiom is a store query whose callback literal returns nil on every path. eval, oneStepEvalClause and oneStepEvalPremise must be part of that tree", 40)
 	c17Loop(c)
 	c17Join(c)
 	c17Total(c)
@@ -304,38 +306,117 @@ func c17Count(c *core.Ctx) {
 	c.Check(bad == "", rC17Count, f.Name, f.Decl.Pos(), "plain + temporal store counts", bad)
 }
 
-// c17Errors: structural error propagation.
+// c17Errors: error propagation over the evaluation call tree. The functions are
+// found by reachability from the entry points, so extracting, inlining or
+// renaming a helper changes nothing; what must hold is that no error produced
+// inside the tree is dropped on the way out.
 func c17Errors(c *core.Ctx) {
-	type link struct{ rel, caller, callee string }
-	links := []link{
-		{"engine", "engine.eval", "engine.engine.oneStepEvalClause"},
-		{"engine", "engine.eval", "engine.engine.mergeDelta"},
-		{"engine", "engine.eval", "engine.EvalTransformWithInputFacts"},
-		{"engine", "engine.evalStrata", "engine.engine.eval"},
-		{"engine", "EvalStratifiedProgramWithStats", "engine.engine.evalStrata"},
-		{"engine", "EvalProgramWithStats", "engine.EvalStratifiedProgramWithStats"},
-		{"engine", "EvalProgram", "engine.EvalProgramWithStats"},
-		{"engine", "engine.oneStepEvalClause", "engine.engine.oneStepEvalPremise"},
+	entry := c.MustFunc(rC17Err, "engine", "EvalProgram")
+	ev := c.MustFunc(rC17Err, "engine", "engine.eval")
+	if entry == nil || ev == nil {
+		return
 	}
-	for _, l := range links {
-		f := c.MustFunc(rC17Err, l.rel, l.caller)
-		if f == nil {
-			continue
+	rels := map[string]bool{"engine": true}
+	tree := c.Prog.ReachableFuncs([]*core.Func{entry}, rels)
+	// anchors: the loop and the rule evaluator must be part of the tree
+	for _, need := range []string{"engine.(*engine).eval", "engine.(*engine).oneStepEvalClause", "engine.(*engine).oneStepEvalPremise"} {
+		if tree[need] == nil {
+			c.Unres(rC17Err, "EvalProgram=>"+need, entry.Decl.Pos(), "anchor-unresolved: %s is not reachable from EvalProgram through static calls inside package engine", need)
 		}
+	}
+	var names []string
+	for n := range tree {
+		names = append(names, n)
+	}
+	sort.Strings(names)
+	for _, n := range names {
+		f := tree[n]
+		c.Touch(f)
 		info := f.Pkg.TypesInfo
-		calls := core.FindCalls(info, f.Decl.Body, true, l.callee)
-		if len(calls) == 0 {
-			c.Unres(rC17Err, f.Name+"->"+l.callee, f.Decl.Pos(), "no call of %s found in %s", l.callee, f.Name)
-			continue
+		type site struct {
+			callee string
+			calls  []*ast.CallExpr
 		}
-		bad := ""
-		for _, call := range calls {
-			if !errorIsUsed(f, info, call) && bad == "" {
-				bad = fmt.Sprintf("the error returned by %s at %s is not returned, wrapped or tested", l.callee, c.Prog.Pos(call.Pos()))
+		var sites []*site
+		idx := map[string]*site{}
+		ast.Inspect(f.Decl.Body, func(x ast.Node) bool {
+			call, ok := x.(*ast.CallExpr)
+			if !ok {
+				return true
+			}
+			fn, _ := core.Callee(info, call).(*types.Func)
+			if fn == nil || core.RelOf(fn.Pkg()) == "" {
+				return true
+			}
+			sig := fn.Type().(*types.Signature)
+			if sig.Results().Len() == 0 || !isErrorType(sig.Results().At(sig.Results().Len()-1).Type()) {
+				return true
+			}
+			name := core.ObjName(fn)
+			s := idx[name]
+			if s == nil {
+				s = &site{callee: name}
+				idx[name] = s
+				sites = append(sites, s)
+			}
+			s.calls = append(s.calls, call)
+			return true
+		})
+		for _, s := range sites {
+			bad := ""
+			for _, call := range s.calls {
+				if callbackNeverFails(info, call) {
+					continue // a store query whose callback returns nil on every path yields no error of its own
+				}
+				if !errorIsUsed(f, info, call) && bad == "" {
+					bad = fmt.Sprintf("the error returned by %s at %s is not returned, wrapped or tested", s.callee, c.Prog.Pos(call.Pos()))
+				}
+			}
+			c.Check(bad == "", rC17Err, f.Name+"->"+strings.TrimPrefix(s.callee, "engine."), s.calls[0].Pos(), fmt.Sprintf("%d call(s), error always handled", len(s.calls)), bad)
+		}
+	}
+}
+
+// callbackNeverFails recognises a query through an interface of the module (a
+// fact store) whose last argument is a function literal that returns the nil
+// error on every path: the stores hand back only the callback's error.
+func callbackNeverFails(info *types.Info, call *ast.CallExpr) bool {
+	fn, _ := core.Callee(info, call).(*types.Func)
+	if fn == nil || len(call.Args) == 0 {
+		return false
+	}
+	sig := fn.Type().(*types.Signature)
+	if sig.Recv() == nil {
+		return false
+	}
+	if _, isIface := sig.Recv().Type().Underlying().(*types.Interface); !isIface {
+		return false
+	}
+	lit, ok := ast.Unparen(call.Args[len(call.Args)-1]).(*ast.FuncLit)
+	if !ok {
+		return false
+	}
+	allNil, any := true, false
+	var walk func(n ast.Node) bool
+	walk = func(n ast.Node) bool {
+		switch x := n.(type) {
+		case *ast.FuncLit:
+			return x == lit
+		case *ast.ReturnStmt:
+			any = true
+			if len(x.Results) != 1 || !core.IsNilIdent(info, x.Results[0]) {
+				allNil = false
 			}
 		}
-		c.Check(bad == "", rC17Err, f.Name+"->"+strings.TrimPrefix(l.callee, "engine."), calls[0].Pos(), fmt.Sprintf("%d call(s), error always handled", len(calls)), bad)
+		return true
 	}
+	ast.Inspect(lit, walk)
+	return any && allNil
+}
+
+func isErrorType(t types.Type) bool {
+	n, ok := t.(*types.Named)
+	return ok && n.Obj().Pkg() == nil && n.Obj().Name() == "error"
 }
 
 // errorIsUsed: the call's last result is bound to a variable that is tested against nil or returned, or the call is returned directly.
